@@ -94,7 +94,7 @@ def tensortrax_summary(log):
         ring.set_ofun_rule(tag, _rule)
 
         def ev(X, *sv, **kwargs):
-            log.append(("function", tag))
+            log.append(("function", tag, npmodel.to_obj(np.asarray(X)).copy(), len(sv)))
             a = _args(X)
             r = np.empty(X.shape, dtype=object)
             for i in range(3):
@@ -181,7 +181,11 @@ def run(col):
     ftags = {e[1] for e in log if e[0] in ("gradient", "hessian")}
     stags = {e[1] for e in log if e[0] == "function"}
     col.add("C03.O9", "tensortrax.Hyperelastic(nstatevars>0)", "energy = item 0 for both derivatives, state update = item 1 of the same function",
-            len(ftags) == 1 and len(stags) == 1 and ftags != stags, str(log))
+            len(ftags) == 1 and len(stags) == 1 and ftags != stags, str([e[:2] for e in log]))
+    Cwant = np.einsum("ki...,kj...->ij...", F, F)
+    fcalls = [e for e in log if e[0] == "function"]
+    col.add("C03.O9", "tensortrax.Hyperelastic(nstatevars>0) state update argument", "the state-variable update is evaluated at the same C = F^T F as the energy (objective history) and receives the old state variables",
+            bool(fcalls) and all(same_arrays(e[2], Cwant) and e[3] == 1 for e in fcalls), "constitution/tensortrax/_hyperelastic.py Hyperelastic._stress: the state update receives another argument than F^T F")
     # --- tensortrax Material: gradient = fun(F), hessian = jacobian of the same fun
     del log[:]
     mcls = it.get("felupe.constitution.tensortrax._material:Material")
